@@ -56,6 +56,8 @@ PROFILES = {
     "kinds3": dict(BASE, nkinds=(2, 3), bases=(0, 1, 2), ntasks=(2, 7)),
     "faults": dict(BASE, flush_modes=("ok", "itemerr", "skip", "raise"), p_raise=0.12, p_errleaf=0.06,
                    p_bad=0.04, p_catch=0.4, p_share=0.1),
+    "flushfaults": dict(BASE, ntasks=(3, 7), nseg=(2, 4), nkinds=(2, 3), flush_modes=("raise", "raise", "ok", "itemerr"), p_item=0.6, p_task=0.3,
+                        p_catch=0.75, p_share=0.05),
     "lazyfail": dict(BASE, p_lazyfail=0.08, p_lazy=0.08, p_catch=0.4),
     "sync": dict(BASE, p_sync=0.3, ntasks=(2, 6)),
     "syncfaults": dict(BASE, p_sync=0.3, ntasks=(2, 6), flush_modes=("ok", "itemerr", "raise"), p_raise=0.1,
